@@ -272,3 +272,14 @@ Lemma pool_mapper_is_map {A R} n_jobs (sched_of : list A -> list ev) :
   (forall (g : A -> res R) xs, n_jobs <> 1 -> complete (prun g xs (sched_of xs)) = true) ->
   forall (g : A -> res R) xs, (fun g xs => invoker_map g n_jobs xs (sched_of xs)) g xs = map g xs.
 Proof. intros H g xs. apply invoker_map_l. intro N. apply H, N. Qed.
+
+(* ---- the module-level helpers hand their parameters on ------------------------------------------------ *)
+
+Lemma helpers_forward_parameters_l : forall (IV : Type) (k : @key IV) (n items : IV),
+  inputs_of (helper_inv helper_recommend n) k items = single_inputs HSRecommendN (alookup "user_id"%string k) n items /\
+  inputs_of (helper_inv helper_score n) k items = single_inputs HSScore (alookup "user_id"%string k) n items /\
+  inputs_of (helper_inv helper_predict n) k items = single_inputs HSPredict (alookup "user_id"%string k) n items.
+Proof.
+  intros IV k n items. unfold inputs_of, helper_recommend, helper_score, helper_predict, run_pipeline_steps, single_inputs.
+  cbn. destruct (alookup "user_id"%string k); cbn; repeat split; reflexivity.
+Qed.
